@@ -44,6 +44,35 @@ def entries(rng, shape, kind):
     raise ValueError(kind)
 
 
+def structured_block_matrix(rng, q0, q1, how):
+    """Exact structure inside the charge blocks: 'zerocols' (random rows/columns exactly zero, also leading ones), 'binary' (entries 0/1:
+    exact dependencies and zero pivots), 'dupcols' (a column/row an exact copy of another one of the same charge)."""
+    m, n = len(q0), len(q1)
+    mask = np.equal.outer(np.asarray(q0), np.asarray(q1))
+    if how == 'binary':
+        return np.where(mask, rng.integers(0, 2, size=(m, n)), 0).astype(float)
+    A = np.where(mask, rng.normal(size=(m, n)) + (1j * rng.normal(size=(m, n)) if rng.random() < 0.5 else 0), 0)
+    if how == 'zerocols':
+        for j in range(n):
+            if rng.random() < 0.4:
+                A[:, j] = 0
+        for i in range(m):
+            if rng.random() < 0.2:
+                A[i, :] = 0
+    elif how == 'dupcols':
+        for _ in range(max(1, n // 2)):
+            j = int(rng.integers(0, n))
+            same = [k for k in range(n) if k != j and q1[k] == q1[j]]
+            if same:
+                A[:, int(rng.choice(same))] = A[:, j] * float(rng.choice([1, -1, 2]))
+        for _ in range(max(1, m // 3)):
+            i = int(rng.integers(0, m))
+            same = [k for k in range(m) if k != i and q0[k] == q0[i]]
+            if same:
+                A[int(rng.choice(same)), :] = A[i, :]
+    return A
+
+
 def block_matrix(rng, q0, q1, kind='complex', rank=None):
     """Random matrix whose non-zero entries connect equal charges; rank: None=full, int=per-block rank cap, 0=zero."""
     m, n = len(q0), len(q1)
